@@ -197,6 +197,31 @@ def run_driver(driver: str, cases: list[dict], timeout: int = 1500) -> list[dict
     return [json.loads(l) for l in lines]
 
 
+def warm_up_backends():
+    """Register every pandera backend / built-in check implementation before schemas are built.
+
+    Check equality compares the bytecode of all functions registered in a check's dispatcher; schema
+    components that were deep-copied before the first validation (which registers further
+    implementations lazily) would otherwise compare unequal to components built afterwards."""
+    import warnings
+    with warnings.catch_warnings():
+        warnings.simplefilter("ignore")
+        import pandas as pd
+        import pandera as pa
+        try:
+            pa.DataFrameSchema({"a": pa.Column(int, pa.Check.gt(0))},
+                               index=pa.MultiIndex([pa.Index(int, name="i"), pa.Index(int, name="j")])).validate(
+                pd.DataFrame({"a": [1]}, index=pd.MultiIndex.from_tuples([(1, 2)], names=["i", "j"])))
+        except Exception:  # noqa: BLE001
+            pass
+        try:
+            import polars as pl
+            import pandera.polars as pap
+            pap.DataFrameSchema({"a": pap.Column(int, pap.Check.gt(0))}).validate(pl.DataFrame({"a": [1]}))
+        except Exception:  # noqa: BLE001
+            pass
+
+
 class InfraError(Exception):
     pass
 
